@@ -6,8 +6,6 @@
 //@pin file=lrpar/src/lib/cpctplus.rs fn=traverse sha=0d5160c70276965f
 //@pin file=lrpar/src/lib/cpctplus.rs fn=simplify_repairs sha=98007886e15ef655
 //@pin file=lrpar/src/lib/cpctplus.rs fn=recoverer sha=be65bf0498c91a62
-//@pin file=lrpar/src/lib/parser.rs fn=next_lexeme sha=8aa35f57798e4927
-//@pin file=lrpar/src/lib/parser.rs fn=next_tidx sha=6bc450bf47b1fec0
 // Parser::lr is under contract for C07/C04 (unit c07_lr); for C05/C06 (which sequence is applied, what is reported) it is pinned
 //@pin file=lrpar/src/lib/parser.rs fn=lr sha=77bcb0844d1d0539
 //@use prelude/tail.rs
